@@ -994,7 +994,7 @@ def _check_case(r, c, requests, pending, model=True):
                 bad = "the transform changed the column values"
             if bad:
                 r.fail("polygonize:transform", bad + f" (transform={tr} given as {tform or 'float64 ndarray'})", c)
-                return
+                # no return: the untransformed result still goes through the oracle, the transformed one to the model
         ranks, colr = rank_encode(a, col0)
         regs = internal_regions(c, a, mask, ranks, maskb, conn)
         try:
